@@ -96,6 +96,8 @@ def mapCols (f : Nat → Nat) : Expr → Expr
   | .inList n e xs => .inList n (mapCols f e) (mapColsList f xs)
   | .caseWhen parts => .caseWhen (mapColsList f parts)
   | .caseOf x parts => .caseOf (mapCols f x) (mapColsList f parts)
+  | .strFn g e => .strFn g (mapCols f e)
+  | .concat a b => .concat (mapCols f a) (mapCols f b)
 def mapColsList (f : Nat → Nat) : List Expr → List Expr
   | [] => []
   | e :: es => mapCols f e :: mapColsList f es
@@ -119,6 +121,8 @@ def cols : Expr → List Nat
   | .inList _ e xs => cols e ++ colsList xs
   | .caseWhen parts => colsList parts
   | .caseOf x parts => cols x ++ colsList parts
+  | .strFn _ e => cols e
+  | .concat a b => cols a ++ cols b
 def colsList : List Expr → List Nat
   | [] => []
   | e :: es => cols e ++ colsList es
